@@ -113,7 +113,9 @@ def handle (j : Json) : IO Unit := do
   let (typ, fb) := match strategy.splitOn "-" with
     | [t, f] => (t, f)
     | _ => ("strict", "compatible_only")
-  let healthy := if fault == "no-endpoints" then [] else all
+  -- histories: endpoints (by index) that are offline in the repository when the request arrives
+  let down := jnatList (jget sc "down")
+  let healthy := if fault == "no-endpoints" then [] else all.filter (fun i => !down.contains i)
   let listers := if fault == "unknown-model" then [] else all
   let routed := Olla.Model.Routing.effectiveRoute Olla.Model.Routing.active typ fb (typ == "discovery") healthy listers
   let eps := routed.eps
@@ -153,14 +155,15 @@ def handle (j : Json) : IO Unit := do
   let contacted := (jstrList (jget impl "contacted")).map (fun s => (s.toList.headD 'A').toNat - 'A'.toNat)
   let mOffline := (offlineList tr).map (fun i => String.singleton (Char.ofNat ('A'.toNat + i)))
   let offline := jstrList (jget impl "offline")
-  let baseOffline := if fault == "no-endpoints" then all.map (fun i => String.singleton (Char.ofNat ('A'.toNat + i))) else []
+  let baseOffline := (if fault == "no-endpoints" then all else down).map (fun i => String.singleton (Char.ofNat ('A'.toNat + i)))
   let mMode := match beforeProxy active rq eps, mode with | .inr _, .passthrough _ => "passthrough" | _, _ => ""
   let ctAgree := if fromBackend out.body then ct == sentCT else seen.ctype == out.ctype
   let agree := (cErr != "timeout" && seen.status == out.status && seen.body == out.body && ctAgree &&
     contacted == mContacted && jstr (jget impl "mode") == mMode &&
     offline.all (fun x => mOffline.contains x || baseOffline.contains x) && mOffline.all (offline.contains ·))
   -- the property on the implementation's own observations
-  let noResponse := sent.isEmpty                          -- no backend put a response on the wire
+  -- no backend put a response on the wire (`answered`: a backend did answer, if with an empty body)
+  let noResponse := sent.isEmpty && !jbool (jget impl "answered")
   let prompt := cErr != "timeout" && ms ≤ 2000 + jnat (jget sc "slow_ms")   -- after the backend's own scripted delay
   let c1 := !noResponse || (failureReported seen && prompt)
   let c2 := dialectOk anthropicRoute seen
@@ -185,7 +188,14 @@ def handle (j : Json) : IO Unit := do
         | .failed _ => if (clientStatus tr).isSome then "failed-after-start" else "failed-before-start"
         | .exhausted => "exhausted" | .selectFailed => "select-failed" | .noEndpoints => "no-endpoints"
       s!"{cls}:{o}"
-  let note := if spec && agree then "" else
+  -- a request of a history (kind c05hist): the same judgement; the note names what the same running stack served before
+  let before := jstrList (jget j "before")
+  let atOnce := jstrList (jget j "at_once_with")
+  let histNote := if jstr (jget j "kind") != "c05hist" then "" else
+    s!"request {before.length + 1} on ONE running stack ({jstr (jget (jget j "hist") "type")}-type endpoints), " ++
+    (if atOnce.isEmpty then "" else s!"sent at the same time as {atOnce}, ") ++
+    (if before.isEmpty then "the first one; " else s!"after (most recent last; the last 12 of {before.length}): {before.drop (before.length - 12)}; ")
+  let note := if spec && agree then "" else histNote ++
     s!"engine {jstr (jget sc "engine")}, {n} endpoint(s), fault '{fault}' (backend status {bStatus}, {jstr (jget sc "err_body")} error body), route {routeS}, stream={stream}: client got {cStatus} '{ct}' with {describe seen.body} ({body.length} bytes, {ms} ms, err '{cErr}', X-Olla-Mode '{jstr (jget impl "mode")}'), backends contacted {contacted}, offline afterwards {offline}; model: {out.status} with {describe out.body}, contacted {mContacted}, offline {mOffline}, mode '{mMode}'"
   emit case agree spec branch sig note
     (Json.mkObj [("status", toJson out.status), ("body", toJson (reprStr out.body)), ("result", toJson (reprStr res))])
